@@ -65,4 +65,23 @@ def blockPairs (nb : Nat) (Prow Orow Pcol Ocol : Axis) (Ar Br sr vr Ac Bc sc vc 
 def Block1.srcOutClipped (b : Block1) (procRef : Bool) (S : Axis) : Win1 :=
   (if procRef then b.oout else b.pout).inter S.full
 
+/-! ### `_auto_block_shape`: halve the longer side until the block fits the memory budget -/
+
+/-- one halving: `block_shape[np.argmax(block_shape)] /= 2` on `(height, width)` - rows when equal (argmax returns the first) -/
+def halveLonger (h w : Rat) : Rat × Rat := if w ≤ h then (h / 2, w) else (h, w / 2)
+
+/-- the `while np.prod(block_shape) * dtype_size > max_block_mem` loop with a step bound; `bytes` = 4 (float32) -/
+def autoShapeLoop : Nat → Rat → Rat → Rat → Rat × Rat
+  | 0, h, w, _ => (h, w)
+  | fuel + 1, h, w, m => if m < h * w * 4 then autoShapeLoop fuel (halveLonger h w).1 (halveLonger h w).2 m else (h, w)
+
+/-- `_auto_block_shape` for a processing window of `H x W` pixels and a budget of `maxBytes` bytes (already scaled by
+    `mem_scale`): `none` = BlockSizeError (smaller than a pixel), else the ceiling of the halved shape -/
+def autoBlockShape (fuel : Nat) (H W : Nat) (maxBytes : Rat) : Option (Int × Int) :=
+  let hw := autoShapeLoop fuel (H : Rat) (W : Rat) maxBytes
+  if hw.1 < 1 ∨ hw.2 < 1 then none else some (hw.1.ceil, hw.2.ceil)
+
+/-- `block_pairs` refuses block shapes that do not exceed the overlap -/
+def blockShapeOk (s v : Int × Int) : Bool := decide (v.1 < s.1) && decide (v.2 < s.2)
+
 end Homonim
